@@ -1,0 +1,49 @@
+//go:build verif
+
+package routing
+
+// Exporting shims for the external verification harness (property C11).
+// No behaviour: they make the policy-mode (legacy) branch of the SPOE message
+// handlers callable from outside the package, around an accessor and services
+// the harness built itself. Add-only, compiled only with -tags verif.
+
+import (
+	"lunar/engine/config"
+	"lunar/engine/runner"
+	"lunar/engine/services"
+
+	"github.com/negasus/haproxy-spoe-go/action"
+	"github.com/negasus/haproxy-spoe-go/message"
+)
+
+// VerifC11NewPolicyModeManager returns a HandlingDataManager with streams
+// disabled whose transactions are served through the given accessor.
+func VerifC11NewPolicyModeManager(
+	accessor *config.TxnPoliciesAccessor,
+	initial *config.PoliciesData,
+	policiesServices *services.PoliciesServices,
+) *HandlingDataManager {
+	return &HandlingDataManager{ //nolint:exhaustruct
+		PoliciesData: PoliciesData{ //nolint:exhaustruct
+			diagnosisWorker:   runner.NewDiagnosisWorker(),
+			configBuildResult: config.BuildResult{Accessor: accessor, Initial: initial},
+		},
+		policiesServices: policiesServices,
+	}
+}
+
+// VerifC11ProcessRequest is processRequest.
+func VerifC11ProcessRequest(
+	msg *message.Message,
+	data *HandlingDataManager,
+) (action.Actions, error) {
+	return processRequest(msg, data)
+}
+
+// VerifC11ProcessResponse is processResponse.
+func VerifC11ProcessResponse(
+	msg *message.Message,
+	data *HandlingDataManager,
+) (action.Actions, error) {
+	return processResponse(msg, data)
+}
